@@ -385,6 +385,8 @@ def sequences(tier, seed):
         # the model / generated parser obtained first, any other call, then use the first
         for prod, cons in (core_chains(g) if tier == 'quick' else chains[g]):
             for x in allops[g]:
+                if tier == 'quick' and x[2] in ('name', 'whitespace', 'config'):
+                    continue
                 add((prod, x, (cons[0], 0) + tuple(cons[2:])), 'handle-after-other-call')
         # failed parse then good parse on the same object
         for v in (('none', 'asmodel', 'semantics', 'ignorecase') if tier == 'quick' else VARIANTS):
@@ -461,9 +463,16 @@ def classify(seq, kind, got, ref):
         if {gl, cross[0][1]} == {'B', 'E'}:
             return 'synth-registry-ignores-declared-bases'
         return 'result-depends-on-call-with-other-grammar'
-    if last[0] == 'M':
-        return f'earlier-model-parses-differently-after-later-call-{what}'
-    if last[0] == 'G':
+    if last[0] in 'MG':
+        pi = last[1]
+        before = [o for i, o in enumerate(seq[:-1]) if i < pi and o[0] in 'CPS' and o[1] == gl]
+        after = [o for i, o in enumerate(seq[:-1]) if i > pi and o[0] in 'CPS' and o[1] == gl]
+        if before and not after:
+            # the call that produced the handle already depended on the history
+            return f'compile-cache-key-omits-{what}'
+        if last[0] == 'M':
+            return f'earlier-model-parses-differently-after-later-call-{what}' if not before else \
+                f'model-handle-result-depends-on-history-{what}'
         return f'generated-parser-parses-differently-after-later-call-{what}'
     if same and all(o == last for o in same):
         return 'result-differs-when-call-is-repeated'
@@ -535,6 +544,9 @@ def run(tier='quick', seed=0, info=None):
                 cls = classify(s, kind, got['last'], ref['last'])
                 failures.append(dict(
                     witness={'sequence': seq_src(s), 'reference': seq_src(reference_seq(s)), 'ops': [list(o) for o in s],
+                             'how': 'import tatsu; from tatsu.config import ParserConfig; from bounded.bC10 import Sem; r = {}; run '
+                                    '`sequence` in one fresh python process and `reference` in another; compare the last r[i]. '
+                                    'parser_of(src): exec(src) and instantiate its <Name>Parser once; TEXT = TEXT of that grammar',
                              'G': {o[1]: GRAMMARS[o[1]][0] for o in s if o[0] in 'CPS'},
                              'TEXT': GRAMMARS[[o for o in s if o[0] in 'CPS'][0][1]][1]},
                     detail=f'after the sequence the last call gives {short(got["last"])}; alone in a fresh interpreter it gives '
